@@ -276,13 +276,14 @@ def manufacture(rng, alg):
             c = MA @ xs + MB @ zs
             recipe_B, zshape, cval = B, [m], c.tolist()
         else:
-            # default B = -I, c = 0 : z* = A x*, rho*u = y in dg(z*)
+            # default B = -I ; c = 0 (default) or a given constant : z* = A x* - c, rho*u = y in dg(z*)
             g = gen_g(rng, ("l1", "sql2", "zero"))
-            zs = MA @ xs
+            cvec = G.dy(rng, (p,), 2, 1.0) if rng.integers(0, 2) else None
+            zs = MA @ xs - (0.0 if cvec is None else cvec)
             y = subgrad_of(rng, g, zs)
             lam = y
             MB = -np.eye(p)
-            recipe_B, zshape, cval = None, None, None
+            recipe_B, zshape, cval = None, None, (None if cvec is None else cvec.tolist())
         a2 = max(float(np.linalg.norm(MA, 2) ** 2), 1e-3)
         b2 = max(float(np.linalg.norm(MB, 2) ** 2), 1e-3)
         recipe = {"alg": "padmm", "cplx": False, "xshape": [n], "A": A, "B": recipe_B, "c": cval,
@@ -596,7 +597,7 @@ def lyapunov_monitors(ctx, recipe, kkt, xs, states, fobjs, b):
                 if np.sqrt(_sq(A_(z1) - A_(z0))) > al * q + tol(q) or np.sqrt(_sq(M @ x1 - A_(z1))) > (1 + al) * q + tol(q):
                     return {"quantity": "ADMM residual bounds |z+-z| <= a|Cx+-z|, |Cx+-z+| <= (1+a)|Cx+-z|", "k": k, "q": q}
         ctx.count("monotone:admm-relaxed-W-alpha%s" % ("=1" if al == 1.0 else "!=1"))
-    if alg == "pdhg" and recipe.get("nl") is None and recipe["alpha"] == 1.0:
+    if alg == "pdhg" and recipe.get("nl") is None:
         M = dense(recipe["C"], [n])
         tau, sig = float(recipe["tau"]), float(recipe["sigma"])
         zs = A_(kkt["z"])
@@ -608,11 +609,14 @@ def lyapunov_monitors(ctx, recipe, kkt, xs, states, fobjs, b):
             s0, s1 = states[k], states[k + 1]
             a0, b0 = A_(s0["x"]) - xs, A_(s0["z"]) - zs
             a1, b1 = A_(s1["x"]) - xs, A_(s1["z"]) - zs
-            lhs = Mn(a1, b1) + Mn(a0 - a1, b0 - b1) + 2.0 * m_f * _sq(a1)
-            if lhs > Mn(a0, b0) + tol(Mn(a0, b0)):
-                return {"quantity": "PDHG Fejer monotonicity in the M-metric (alpha=1), with the 2m|x+-x*|^2 gain", "k": k, "lhs": lhs, "M_before": Mn(a0, b0),
+            al = float(recipe["alpha"])
+            # alpha = 1: Fejer inequality with the strong-convexity gain; alpha != 1: with the defect of C03_pdhg_alpha_defect
+            lhs = Mn(a1, b1) + Mn(a0 - a1, b0 - b1) + (2.0 * m_f * _sq(a1) if al == 1.0 else 0.0)
+            rhs = Mn(a0, b0) + 2.0 * (1.0 - al) * float(b1 @ (M @ (a0 - a1)))
+            if lhs > rhs + tol(Mn(a0, b0)):
+                return {"quantity": "PDHG Fejer inequality in the M-metric (alpha=%g; gain 2m|x+-x*|^2 for alpha=1, defect 2(1-alpha)<z+-z*,C(x-x+)> otherwise)" % al, "k": k, "lhs": lhs, "M_before": Mn(a0, b0),
                         "M_after": Mn(a1, b1)}
-        ctx.count("monotone:pdhg-fejer-M")
+        ctx.count("monotone:pdhg-fejer-M" + ("" if float(recipe["alpha"]) == 1.0 else "-with-alpha-defect"))
     if alg == "padmm":
         MA = dense(recipe["A"], [n])
         p = MA.shape[0]
